@@ -153,6 +153,8 @@ structure FuncSig where
   exported : Bool
   params : List TyId
   results : List TyId
+  /-- `Signature.Variadic()`: the last parameter is `...T` (its type in `params` is `[]T`) -/
+  variadic : Bool := false
   deriving Repr, DecidableEq, Inhabited
 
 inductive FuncLookup where
@@ -187,8 +189,11 @@ def lookupConverterFunc (env : Env) (sc : Scope) (name : String) : Except String
   | .notFunc => .error s!"{name} isn't a function"
   | .func sig =>
     match sig.params, sig.results with
-    | [a], [r] => .ok (a, r, false)
+    | [a], [r] =>
+      -- the call passes one value: a variadic parameter would need `arg...`
+      if sig.variadic then .error s!"function {name} cannot use as a converter" else .ok (a, r, false)
     | [a], [r, e] =>
+      if sig.variadic then .error s!"function {name} cannot use as a converter" else
       if env.isErrorType e then .ok (a, r, true) else .error s!"function {name} cannot use as a converter"
     | _, _ => .error s!"function {name} cannot use as a converter"
 
@@ -215,6 +220,8 @@ def lookupManipulatorFunc (env : Env) (sc : Scope) (name optName pos : String) :
     if badHookResult env sig.results then .error s!"function {name} cannot use for {optName} func" else
     match sig.params with
     | d :: s :: rest =>
+      -- the call passes each argument as it is: a variadic parameter would need `arg...`
+      if sig.variadic then .error s!"function {name} cannot use for {optName} func" else
       .ok { name := sig.name, pkgPath := sig.pkgPath, exported := sig.exported, dstSide := d, srcSide := s,
             additionalArgs := rest, pos := pos,
             retError := (match sig.results with | [e] => env.isErrorType e | _ => false) }
